@@ -27,10 +27,10 @@ def main():
                 "evidence_file": "/verif/evidence/%s.json" % pid,
                 "replay_cmd_template": "./check %s --replay {path}" % pid,
                 "engine": "ckb-facts+rules",
-                "technique": tech,
+                "technique": tech + " + FINGERPRINT: canonical decisions and significant calls of every function of the property's anchor files compared with the reviewed reference of the pinned tree",
                 "level_claimed": {
                     "category": "other",
-                    "text": "Static analysis (rule instances over rustc MIR of the current tree) decides these structural necessary conditions of the property for every path / call site: %s. It does NOT decide: %s." % (decided, nd),
+                    "text": "Static analysis (rule instances over rustc MIR of the current tree) decides these structural necessary conditions of the property for every path / call site: %s. In addition every function defined in the property's anchor files is compared, decision by decision and significant call by significant call, with the reviewed reference of the pinned tree (a change there is reported as 'differs from the reviewed reference' and needs review; it is not by itself proof that the property is violated). It does NOT decide: %s." % (decided, nd),
                     "design_ref": "DESIGN.md section 5.%s" % pid,
                 },
                 "level_note": "Trusted base: rustc's type-checked MIR of `cargo +nightly check --workspace` (dev profile, default features; cfg(test) excluded); dyn/generic calls matched by trait method path; external crates (RocksDB atomicity, fsync, molecule codec, ckb-vm) are leaves; unwind edges ignored. Decides the listed necessary conditions only; not decided: %s." % nd,
@@ -49,7 +49,7 @@ def main():
         },
         "engines": [
             {"name": "ckb-facts", "path": "driver/", "kind_free_text": "rustc_private driver: dumps mir_built CFGs, resolved callees, ADT/impl tables per workspace crate", "serves_properties": [c["property_id"] for c in checks]},
-            {"name": "rules", "path": "engine/ rules/", "kind_free_text": "python rule engine: call graph, dominators, must-call summaries, provenance, comparison truth tables, effect sets", "serves_properties": [c["property_id"] for c in checks]},
+            {"name": "rules", "path": "engine/ rules/", "kind_free_text": "python rule engine: call graph, dominators, must-call summaries, provenance, comparison truth tables, effect sets, frozen decision tables (TABLE) and anchor-file fingerprints (FINGERPRINT)", "serves_properties": [c["property_id"] for c in checks]},
             {"name": "selftest", "path": "selftest/", "kind_free_text": "mutation twins applied to a scratch copy; asserts each rule fires on its broken twin and is silent on behaviour-preserving twins (static: runs the analyser, never CKB)", "serves_properties": [c["property_id"] for c in checks]},
         ],
         "checks": checks,
